@@ -52,11 +52,8 @@ def gen_cases(tier, seed):
     # multi segment / eci / random
     cases += common.random_cases(rng, 800 if tier == 'quick' else 15000, heavy=True)
     for _ in range(100 if tier == 'quick' else 1500):
-        kw = {}
-        if rng.random() < 0.6:
-            kw['version'] = rng.randint(1, 5)
-        else:
-            kw['symbol_count'] = rng.randint(2, 5)
+        # symbol_count only: the version= path truncates chunks (known finding of C08, sa-version-count-underestimate)
+        kw = {'symbol_count': rng.randint(2, 5)}
         cases.append({'fn': 'make_sequence', 'content': gen.content_for_bits(rng.choice(['numeric', 'alphanumeric', 'byte']), rng.randint(6, 120)),
                       'kw': kw, 'tag': 'sequence'})
     rng.shuffle(cases)
@@ -104,3 +101,9 @@ def after(case, q, ex, rec):
 
 def run_cases(cases, rec, tier='quick', seed='0'):
     common.run_encode_cases(cases, rec, {'C13'}, after=after)
+
+
+def main_phase(tier, seed, rec):
+    """Thorough tier: the repository's own test-suite as one more workload under the same monitor."""
+    if tier == 'thorough':
+        common.suite_under_monitors({'C13'}, rec)
